@@ -68,13 +68,13 @@ Next == (Deliver \/ CacheOnly \/ Hold \/ Lose \/ Close \/ (\E p \in held : Relea
 Spec == Init /\ [][Next]_vars
 
 \* ---- Layer P
+Written == {i \in 1..Len(ops) : ops[i].op \in {"D", "L", "U"}}
+FirstWritten == IF Written = {} THEN NP + 1 ELSE ops[CHOOSE i \in Written : \A j \in Written : i <= j].p
 May == MayF(FrameOf, has)                  \* R1: nothing but complete frames
-Must == MustF(FrameOf, KF, has, lost)     \* R4
+Must == MustF(FrameOf, KF, has, lost, IF FirstWritten > NP THEN 0 ELSE FirstWritten)     \* R4
 \* design-level facts
 \* only what precedes the first packet ever written (the recorder cannot know it exists) or follows the last one (no later
 \* packet reveals the gap) can be missing when nothing is lost for good
-Written == {i \in 1..Len(ops) : ops[i].op \in {"D", "L", "U"}}
-FirstWritten == IF Written = {} THEN NP + 1 ELSE ops[CHOOSE i \in Written : \A j \in Written : i <= j].p
 NothingLostMeansAllButTail ==
   (over /\ ~lost) => \A p \in Pkts : p \in has \/ (\A q \in Pkts : q > p => q \notin has) \/ p < FirstWritten
 HasOnlySent == has \subseteq Pkts
